@@ -129,6 +129,55 @@ func linkPath(r *hx.Rand, depth int, exotic bool) string {
 
 type fsCase struct{ path, target string }
 
+// mitem is one transition of a multi-link Transition call: a single link
+// (`L:<path>:<target>`) or a directory to create with links inside it
+// (`D:<path>:<rel>=<target>|…`, intermediate directories implied).
+type mitem struct {
+	dir    bool
+	path   string
+	target string
+	links  []fsCase // relative to path
+}
+
+func itemsField(items []mitem) string {
+	out := make([]string, len(items))
+	for i, it := range items {
+		if !it.dir {
+			out[i] = "L:" + hexs(it.path) + ":" + hexs(it.target)
+			continue
+		}
+		ls := make([]string, len(it.links))
+		for j, l := range it.links {
+			ls[j] = hexs(l.path) + "=" + hexs(l.target)
+		}
+		out[i] = "D:" + hexs(it.path) + ":" + strings.Join(ls, "|")
+	}
+	return strings.Join(out, ";")
+}
+
+func parseItems(f string) []mitem {
+	var items []mitem
+	for _, s := range strings.Split(f, ";") {
+		p := strings.SplitN(s, ":", 3)
+		if len(p) != 3 {
+			continue
+		}
+		if p[0] == "L" {
+			items = append(items, mitem{path: unhex(p[1]), target: unhex(p[2])})
+			continue
+		}
+		it := mitem{dir: true, path: unhex(p[1])}
+		if p[2] != "" {
+			for _, l := range strings.Split(p[2], "|") {
+				kv := strings.SplitN(l, "=", 2)
+				it.links = append(it.links, fsCase{unhex(kv[0]), unhex(kv[1])})
+			}
+		}
+		items = append(items, it)
+	}
+	return items
+}
+
 func main() {
 	hx.Main("C16", func(c *hx.Ctx) {
 		normalize := func(path, target string) {
@@ -265,6 +314,98 @@ func main() {
 			}
 		}
 
+		// runMulti: ONE core.Transition call that creates several links — as
+		// separate transitions (in the given order) and inside created directory
+		// trees (Go map order). Every link is judged at its own path: the verdict
+		// for a link must not depend on what the same call created before.
+		runMulti := func(mode string, items []mitem) {
+			fsSeq++
+			root := filepath.Join(c.Dir, fmt.Sprintf("fs%d", fsSeq))
+			defer os.RemoveAll(root)
+			if err := os.MkdirAll(root, 0o755); err != nil {
+				panic(err)
+			}
+			slm := core.SymbolicLinkMode_SymbolicLinkModePortable
+			switch mode {
+			case "r":
+				slm = core.SymbolicLinkMode_SymbolicLinkModePOSIXRaw
+			case "i":
+				slm = core.SymbolicLinkMode_SymbolicLinkModeIgnore
+			}
+			var links []fsCase // every link of the call, with its root-relative path, in line order
+			var changes []*core.Change
+			for _, it := range items {
+				// the parent of a transition root has to exist on disk
+				if i := strings.LastIndexByte(it.path, '/'); i >= 0 {
+					if err := os.MkdirAll(filepath.Join(root, filepath.FromSlash(it.path[:i])), 0o755); err != nil {
+						panic(err)
+					}
+				}
+				if !it.dir {
+					links = append(links, fsCase{it.path, it.target})
+					changes = append(changes, &core.Change{Path: it.path, New: &core.Entry{Kind: core.EntryKind_SymbolicLink, Target: it.target}})
+					continue
+				}
+				top := &core.Entry{Kind: core.EntryKind_Directory}
+				for _, l := range it.links {
+					links = append(links, fsCase{it.path + "/" + l.path, l.target})
+					cur := top
+					parts := strings.Split(l.path, "/")
+					for j, part := range parts {
+						if cur.Contents == nil {
+							cur.Contents = map[string]*core.Entry{}
+						}
+						if j == len(parts)-1 {
+							cur.Contents[part] = &core.Entry{Kind: core.EntryKind_SymbolicLink, Target: l.target}
+						} else {
+							if cur.Contents[part] == nil {
+								cur.Contents[part] = &core.Entry{Kind: core.EntryKind_Directory}
+							}
+							cur = cur.Contents[part]
+						}
+					}
+				}
+				changes = append(changes, &core.Change{Path: it.path, New: top})
+			}
+			_, problems, _ := core.Transition(context.Background(), root, changes, &core.Cache{},
+				slm, 0o600, 0o700, nil, false, nil)
+			problemAt := map[string]bool{}
+			for _, p := range problems {
+				problemAt[p.Path] = true
+			}
+			bits := make([]byte, len(links))
+			oracle := ""
+			for i, l := range links {
+				got, err := os.Readlink(filepath.Join(root, filepath.FromSlash(l.path)))
+				bits[i] = '0'
+				if err == nil {
+					bits[i] = '1'
+					if got != l.target {
+						oracle = fmt.Sprintf("class=wrong-link-created %q at %q instead of %q", got, l.path, l.target)
+					} else if mode == "p" && oracle == "" {
+						oracle = acceptedOracle(l.path, l.target)
+					} else if mode == "i" && oracle == "" {
+						oracle = "class=link-created-in-ignore-mode " + l.path
+					}
+					continue
+				}
+				if !problemAt[l.path] && oracle == "" {
+					oracle = fmt.Sprintf("class=refusal-not-reported link %q absent but no problem recorded for it", l.path)
+				}
+			}
+			if mode == "p" && oracle == "" {
+				for i, l := range links {
+					if (badTarget(l.target) != "" || escapes(l.path, l.target) >= 0) && bits[i] == '1' {
+						oracle = acceptedOracle(l.path, l.target)
+					}
+				}
+			}
+			line := "T " + mode + " " + itemsField(items)
+			impl := fmt.Sprintf("%s P=%d", string(bits), len(problems))
+			c.Count("T:" + mode)
+			c.Case(line, impl, oracle, "T"+line)
+		}
+
 		if lines := c.ReplayLines(); lines != nil {
 			for _, l := range lines {
 				f := strings.Fields(l)
@@ -275,6 +416,8 @@ func main() {
 					runScan(f[1], []fsCase{{unhex(f[2]), unhex(f[3])}})
 				case len(f) == 4 && f[0] == "t":
 					runTransition(f[1], []fsCase{{unhex(f[2]), unhex(f[3])}})
+				case len(f) == 3 && f[0] == "T":
+					runMulti(f[1], parseItems(f[2]))
 				default:
 					c.Case(l, "bad-op", "", "")
 				}
@@ -439,6 +582,82 @@ func main() {
 				batch = append(batch, k)
 			}
 			runTransition(mode, batch)
+		}
+
+		// 5. Several links created by ONE Transition call: the same target string
+		// at different depths, deeper link first and shallower link first, as
+		// sibling transitions and inside one created directory tree.
+		boundary := []string{"../s", "../../s", "../../../s", "..", "../..", "a/../..", "a/../../s", ".//..", "./../s", "../x/../../s"}
+		dirAt := func(depth int, tag string) string { // a directory path of the given depth
+			parts := make([]string, depth)
+			for i := range parts {
+				parts[i] = tag + fmt.Sprint(i)
+			}
+			return strings.Join(parts, "/")
+		}
+		join := func(d, n string) string {
+			if d == "" {
+				return n
+			}
+			return d + "/" + n
+		}
+		for _, t := range boundary {
+			for deep := 1; deep <= 3; deep++ {
+				for shallow := 0; shallow < deep; shallow++ {
+					dl := mitem{path: join(dirAt(deep, "p"), "inner"), target: t}
+					sl := mitem{path: join(dirAt(shallow, "q"), "outer"), target: t}
+					// sibling transitions, both orders
+					runMulti("p", []mitem{dl, sl})
+					runMulti("p", []mitem{sl, dl})
+					// a created tree holding the deep link, then the shallow link as its own transition
+					tree := mitem{dir: true, path: "tree", links: []fsCase{{join(dirAt(deep-1, "p"), "inner"), t}}}
+					runMulti("p", []mitem{tree, {path: join(dirAt(shallow, "q"), "outer"), target: t}})
+					runMulti("p", []mitem{{path: join(dirAt(shallow, "q"), "outer"), target: t}, tree})
+					// both links inside one created tree (map order decides): repeat
+					for rep := 0; rep < c.Size(3, 8); rep++ {
+						both := mitem{dir: true, path: "tree", links: []fsCase{
+							{join(dirAt(deep-1, "p"), "inner"), t},
+							{join(dirAt(shallow, "q"), "outer"), t}}}
+						if shallow == 0 {
+							both.links[1].path = "outer"
+						}
+						runMulti("p", []mitem{both})
+					}
+					c.Count("T:same-target-two-depths")
+				}
+			}
+		}
+		for i := 0; i < c.Size(300, 6000); i++ {
+			n := 2 + c.R.Intn(5)
+			var items []mitem
+			used := map[string]bool{}
+			for j := 0; j < n; j++ {
+				t := boundary[c.R.Intn(len(boundary))]
+				if c.R.Chance(1, 4) {
+					t = c.R.Pick("x", "./x", "a:b", "/abs", "a\\b", "x/y", "../"+strings.Repeat("a", 250))
+				}
+				d := dirAt(c.R.Intn(4), c.R.Pick("p", "q"))
+				name := fmt.Sprintf("l%d", j)
+				if c.R.Chance(1, 3) {
+					top := fmt.Sprintf("t%d", j)
+					k := 1 + c.R.Intn(3)
+					it := mitem{dir: true, path: join(d, top)}
+					for x := 0; x < k; x++ {
+						it.links = append(it.links, fsCase{join(dirAt(c.R.Intn(3), "r"), fmt.Sprintf("m%d", x)), boundary[c.R.Intn(len(boundary))]})
+					}
+					if !used[it.path] {
+						used[it.path] = true
+						items = append(items, it)
+					}
+					continue
+				}
+				items = append(items, mitem{path: join(d, name), target: t})
+			}
+			mode := "p"
+			if c.R.Chance(1, 8) {
+				mode = c.R.Pick("r", "i")
+			}
+			runMulti(mode, items)
 		}
 	})
 }
